@@ -43,7 +43,7 @@ use crate::drive::{CutMode, ImplObs};
 use crate::hosted::{Loss, Reconnect};
 use crate::reference::{check, show_trace, well_behaved, Cb, CheckInput, Finding, Mode, Stats};
 use crate::script::{
-    cut_inside_link, gen_illegal, gen_legal, gen_local_op, merge, phases, show_script, with_handle_drop, with_write_failure, Flags, GenOpts, Kind, LocalOp, Note, Step,
+    cut_inside_link, gen_illegal, gen_legal, gen_local_op, merge, phases, show_script, with_handle_drop, with_write_failure, Flags, GenOpts, Kind, LocalOp, Note, Shadow, Step,
     Uniq,
 };
 
@@ -214,6 +214,9 @@ fn apply_stats(out: &mut CaseOut, imp: Imp, kind: &str, st: &Stats) {
     out.add(&format!("{p}/local-writes-while-linked"), st.locals_while_linked);
     for o in &st.observations {
         out.count(o);
+    }
+    for (name, dispatched) in &st.no_change {
+        out.count(&format!("{p}/no-change/{name}/{}", if *dispatched { "callbacks-due" } else { "suppressed" }));
     }
 }
 
@@ -424,17 +427,35 @@ fn both_implementations(out: &mut CaseOut, cs: &CaseScripts, mode: CutMode, driv
 
 /// Symbols of the exhaustive enumeration. Alphabet A: everything a link may send, including
 /// take/drop; alphabet B: what a swim-rust lane sends plus local writes.
-const ALPHABET_A: [&str; 8] = ["upd1", "upd2", "rem1", "clr", "take1", "drop1", "synced", "relink"];
-const ALPHABET_B: [&str; 9] = ["upd1", "upd2", "rem1", "clr", "synced", "relink", "local-upd1", "local-rem1", "local-clr"];
+const ALPHABET_A: [&str; 9] = ["upd1", "upd2", "rem1", "clr", "take1", "drop1", "synced", "relink", "upd1-again"];
+const ALPHABET_B: [&str; 10] = ["upd1", "upd2", "rem1", "clr", "synced", "relink", "local-upd1", "local-rem1", "local-clr", "echo"];
 
 fn exhaustive_script(mut code: u64, depth: u32, alphabet: &[&str]) -> Vec<Step> {
     let mut uniq = Uniq::new(1000);
     let mut steps = vec![Step::N(Note::Linked)];
     let mut synced = false;
+    // What the link has said so far (to re-send the value key 1 holds) and the last local write (for
+    // its echo).
+    let mut shadow = Shadow::default();
+    shadow.apply(&Note::Linked);
+    let mut last_local: Option<LocalOp> = None;
     for _ in 0..depth {
         let sym = alphabet[(code % alphabet.len() as u64) as usize];
         code /= alphabet.len() as u64;
+        let from = steps.len();
         match sym {
+            // Key 1 once more with the value it holds (a first value if it holds none).
+            "upd1-again" => {
+                let v = shadow.map.get(&1).copied().unwrap_or_else(|| uniq.next());
+                steps.push(Step::N(Note::Upd(1, v)));
+            }
+            // The lane sends back exactly what the downlink wrote last (nothing written: update k1).
+            "echo" => steps.push(Step::N(match last_local.take() {
+                Some(LocalOp::Upd(k, v)) => Note::Upd(k, v),
+                Some(LocalOp::Rem(k)) => Note::Rem(k),
+                Some(LocalOp::Clr) => Note::Clr,
+                _ => Note::Upd(1, uniq.next()),
+            })),
             "upd1" => steps.push(Step::N(Note::Upd(1, uniq.next()))),
             "upd2" => steps.push(Step::N(Note::Upd(2, uniq.next()))),
             "rem1" => steps.push(Step::N(Note::Rem(1))),
@@ -455,6 +476,13 @@ fn exhaustive_script(mut code: u64, depth: u32, alphabet: &[&str]) -> Vec<Step> 
             "local-upd1" => steps.push(Step::Local(LocalOp::Upd(1, uniq.next()))),
             "local-rem1" => steps.push(Step::Local(LocalOp::Rem(1))),
             _ => steps.push(Step::Local(LocalOp::Clr)),
+        }
+        for st in &steps[from..] {
+            match st {
+                Step::N(n) => shadow.apply(n),
+                Step::Local(op) => last_local = Some(op.clone()),
+                _ => {}
+            }
         }
     }
     // Make the final state observable: on_synced if the link is not synced yet, else an update.
@@ -858,7 +886,7 @@ fn main() {
     let cases = s.args.budget(80_000, 2_000_000);
     s.part(
         "legal",
-        "one case = one value script and one map script of a well-behaved link (1-3 links, events before/after synced, unlinked, relink; classes: plain / with local writes / with take+drop / both) under one of the four (events_when_not_synced, terminate_on_unlinked) settings, randomly merged and chunked, run on the client downlink tasks and on an agent hosting the downlinks; non-trivial when both implementations exposed their state in callbacks; distinct by hash of flags and scripts",
+        "one case = one value script and one map script of a well-behaved link (1-3 links, events before/after synced, unlinked, relink; most values fresh, but one update in six re-sends the value the entry holds, one value event in eight repeats the current value, one local write in three is echoed by the lane, one `synced` in five is followed by an entry of the snapshot once more; removes of absent keys, clears of an empty map, take/drop that keep everything; classes: plain / with local writes / with take+drop / both) under one of the four (events_when_not_synced, terminate_on_unlinked) settings, randomly merged and chunked, run on the client downlink tasks and on an agent hosting the downlinks; non-trivial when both implementations exposed their state in callbacks; distinct by hash of flags and scripts",
         false,
         cases,
         |c, rng, out| legal_case(c, rng, out, CutMode::HeaderOnly),
@@ -881,7 +909,7 @@ fn main() {
     s.note(format!("exhaustive-map: depth {depth}, {n} cases"));
     s.part(
         "exhaustive-map",
-        "all map scripts `linked` + d symbols + a final observation, d = 4 (quick) / 5 (thorough), over alphabet A {update k1, update k2, remove k1, clear, take 1, drop 1, synced, unlinked+linked} and alphabet B {update k1, update k2, remove k1, clear, synced, unlinked+linked, local update k1, local remove k1, local clear}, times the four settings, on both implementations with all oracles of `legal`; every case is non-trivial (the final state is always exposed); distinct by flags and script",
+        "all map scripts `linked` + d symbols + a final observation, d = 4 (quick) / 5 (thorough), over alphabet A {update k1, update k2, remove k1, clear, take 1, drop 1, synced, unlinked+linked, update k1 with the value it holds} and alphabet B {update k1, update k2, remove k1, clear, synced, unlinked+linked, local update k1, local remove k1, local clear, the lane's echo of the last local write}, times the four settings, on both implementations with all oracles of `legal`; every case is non-trivial (the final state is always exposed); distinct by flags and script",
         true,
         n,
         |c, rng, out| exhaustive_case(c, rng, out, depth),
